@@ -18,6 +18,7 @@ import (
 	"github.com/douban/gobeansdb/config"
 	"github.com/douban/gobeansdb/loghub"
 	"github.com/douban/gobeansdb/utils"
+	"github.com/douban/gobeansdb/vhook"
 )
 
 const (
@@ -228,7 +229,9 @@ func (bkt *Bucket) open(bucketID int, home string) (err error) {
 			bkt.hints.maxDumpedHintID = HintID{i, startsp + j}
 		}
 	}
+	vhook.PointI("bucket.bgRebuild.enter", int64(bkt.ID), 0)
 	go func() {
+		defer vhook.PointI("bucket.bgRebuild.exit", int64(bkt.ID), 0)
 		for i := 0; i < bkt.TreeID.Chunk; i++ {
 			bkt.checkHintWithData(i)
 		}
@@ -362,6 +365,7 @@ func (bkt *Bucket) checkAndSet(ki *KeyInfo, v *Payload) error {
 	if err != nil {
 		return err
 	}
+	vhook.PointS("bucket.cas.afterGet", ki.StringKey)
 
 	if payload != nil {
 		oldv = payload.Ver
@@ -397,7 +401,9 @@ func (bkt *Bucket) set(ki *KeyInfo, v *Payload) error {
 	if err != nil {
 		return err
 	}
+	vhook.PointS("bucket.set.afterAppend", ki.StringKey)
 	bkt.htree.set(ki, &v.Meta, pos)
+	vhook.PointS("bucket.set.afterTree", ki.StringKey)
 	bkt.hints.set(ki, &v.Meta, pos, v.RecSize, "set")
 	return nil
 }
@@ -428,6 +434,7 @@ func (bkt *Bucket) get(ki *KeyInfo, memOnly bool) (payload *Payload, pos Positio
 		payload.Meta = *meta
 		return // omit collision
 	}
+	vhook.PointS("bucket.get.afterTree", ki.StringKey)
 	beforeGetRecord := time.Now()
 	rec, inbuffer, err := bkt.datas.GetRecordByPos(pos)
 	getRecordTimeCost := time.Now().Sub(beforeGetRecord).Seconds() * 1000 // Millisecond
@@ -605,6 +612,8 @@ func (bkt *Bucket) loadGCHistroy() (err error) {
 func (bkt *Bucket) dumpGCHistroy() {
 
 	p := bkt.getGCHistoryPath()
+	vhook.FS(vhook.Before, "writefile", p, 0, 0)
+	defer vhook.FS(vhook.After, "writefile", p, 0, 0)
 	fd, err := os.OpenFile(p, os.O_CREATE|os.O_WRONLY|os.O_TRUNC, 0644)
 	if err != nil {
 		logger.Errorf("%v", err)
